@@ -113,6 +113,34 @@ func (c13) RunBatch(ctx *core.Ctx, batch int) {
 			ctx.Case(doc, func() { c13Check(ctx, "mutated", doc) })
 		})
 	default:
+		// every hostile string as a field name and as a value under each column operator
+		for _, h := range gen.HostileStrings {
+			hb, _ := json.Marshal(h)
+			for _, op := range []string{"EQUALS", "GREATER", "LESS_EQ", "LIKE", "IN", "RANGE"} {
+				right := `"v"`
+				switch op {
+				case "LIKE":
+					right = `"v*"`
+				case "IN":
+					right = `{"left":["x","y"],"operator":"LIST"}`
+				case "RANGE":
+					right = `{"min":1,"max":2,"inclusive":true}`
+				}
+				doc := `{"left":` + string(hb) + `,"operator":"` + op + `","right":` + right + `}`
+				ctx.Case(doc, func() { c13Check(ctx, "hostile-field", doc) })
+			}
+			for _, doc := range []string{
+				`{"left":"a","operator":"EQUALS","right":` + string(hb) + `}`,
+				`{"left":"a","operator":"LIKE","right":` + string(hb) + `}`,
+				`{"left":"a","operator":"RANGE","right":{"min":` + string(hb) + `,"max":` + string(hb) + `,"inclusive":false}}`,
+				`{"left":"a","operator":"IN","right":{"left":[` + string(hb) + `,1],"operator":"LIST"}}`,
+				`{"left":{"left":` + string(hb) + `,"operator":"NOT"},"operator":"BOOST","power":2}`,
+				string(hb),
+			} {
+				doc := doc
+				ctx.Case(doc, func() { c13Check(ctx, "hostile-value", doc) })
+			}
+		}
 		for _, doc := range c13Fixed {
 			doc := doc
 			ctx.Case(doc, func() { c13Check(ctx, "fixed", doc) })
